@@ -14,6 +14,7 @@ type opts struct {
 	prop, in, out, groups, tier string
 	seed                        int64
 	bindings, max, maxslow      int
+	firstuse                    int
 	scalars, codecall, adapters bool
 	lastop                      string
 }
@@ -21,7 +22,7 @@ type opts struct {
 var drivers = map[string]func(o opts, res *core.Result) error{
 	"alg": func(o opts, res *core.Result) error {
 		return alg.Run(alg.Config{Prop: o.prop, In: o.in, Seed: o.seed, Bindings: o.bindings, Max: o.max, MaxSlow: o.maxslow,
-			ScalarsOnly: o.scalars, Groups: o.groups, CodecAll: o.codecall, Adapters: o.adapters}, res)
+			ScalarsOnly: o.scalars, Groups: o.groups, CodecAll: o.codecall, Adapters: o.adapters, FirstUse: o.firstuse}, res)
 	},
 }
 
@@ -42,6 +43,7 @@ func main() {
 	fs.IntVar(&o.bindings, "bindings", 3, "bindings per group")
 	fs.IntVar(&o.max, "max", 0, "behaviours per (group,binding)")
 	fs.IntVar(&o.maxslow, "maxslow", 0, "same for slow groups")
+	fs.IntVar(&o.firstuse, "firstuse", -1, "alg: variant 0..3 of the first-use probe (default seed%4)")
 	fs.BoolVar(&o.scalars, "scalars", false, "one group per scalar implementation")
 	fs.BoolVar(&o.codecall, "codecall", false, "cycle codec paths over bindings")
 	fs.BoolVar(&o.adapters, "adapters", false, "also run the suite-as-group adapters")
